@@ -2,7 +2,7 @@
 import vlib, handler_common as hc, adv
 
 PROP = "C05"
-STRUCT = sorted(adv.STRUCTURAL | {"zero", "ones", "random"})
+STRUCT = sorted(adv.STRUCTURAL | {"zero", "ones", "random", "giant"})
 
 
 def plan(quick):
@@ -26,6 +26,13 @@ def plan(quick):
         {"proto": "cmp-sign", "n": 3, "t": 2, "kinds": ["fault"], "alts": NUL, "pool": True, "fieldwise": True, "limit": 12 if quick else None},
         {"proto": "doerner-keygen", "n": 2, "t": 1, "kinds": ["fault"], "alts": NUL, "pool": True, "fieldwise": True},
         {"proto": "doerner-sign", "n": 2, "t": 1, "kinds": ["fault"], "alts": NUL, "pool": True, "fieldwise": True, "limit": 40 if quick else None},
+    ]
+    # half a megabyte in place of every big number / byte string (one case per field name): time must stay bounded
+    p += [
+        {"proto": "cmp-sign", "n": 3, "t": 2, "kinds": ["fault"], "alts": ["giant"], "fieldwise": True, "limit": 10 if quick else None},
+        {"proto": "cmp-keygen", "n": 3, "t": 1, "kinds": ["fault"], "alts": ["giant"], "fieldwise": True, "limit": 6 if quick else None},
+        {"proto": "frost-keygen", "n": 3, "t": 1, "kinds": ["fault"], "alts": ["giant"], "fieldwise": True},
+        {"proto": "doerner-sign", "n": 2, "t": 1, "kinds": ["fault"], "alts": ["giant"], "fieldwise": True},
     ]
     # announced counts of the hand-written binary encodings (polynomial commitments): 2^32-1, 2^31 and the overflow
     # points floor(2^32 / k) + 1 of every plausible element size k
@@ -70,6 +77,9 @@ def run(tier):
     dealers += [{"kind": "dealercheat", "proto": pr, "n": 3, "t": 1, "byz": b, "alt": a, "sched": vlib.seed() * 5 + 100 + i}
                 for i, (pr, b, a) in enumerate((pr, b, a) for pr in ("cmp-keygen", "cmp-refresh") for b in ("a", "b", "c")
                                                for a in ("plus", "minus", "nonzero") if not (pr == "cmp-keygen" and a == "nonzero"))]
+    # a dealer whose contribution to the key is the identity (zero constant term, forged proof of knowledge)
+    dealers += [{"kind": "dealercheat", "proto": pr, "n": 3, "t": 1, "byz": b, "alt": "zero", "sched": vlib.seed() + 400 + i}
+                for i, (pr, b) in enumerate((pr, b) for pr in ("frost-keygen", "taproot-keygen", "cmp-keygen") for b in ("a", "b", "c"))]
     st = adv.run_family(rep, wd, plan(quick), PROP, vlib.seed(), {"C05"}, shards=14, extra_scen=dealers)
     rep.cov.update({"distinct_nontrivial": st["distinct"], "states": st["states"], "transitions": st["transitions"],
                     "traces_validated_against_impl": st["traces"], "trace_lines": st["lines"], "catalogue_cases": st["catalogue"],
